@@ -74,6 +74,7 @@ type ksReq struct {
 type ksObs struct {
 	mw       map[string]string // at entry of the first middleware
 	h        map[string]string // in the final handler
+	eh       map[string]string // in the application's error handler (when one is configured)
 	reached  bool
 	panicked bool
 }
@@ -92,6 +93,8 @@ type ksWorld struct {
 	yield     bool
 	immutMode bool
 	immutable bool
+	globalMW  bool // a middleware in front of everything (then every request has a matched route)
+	customEH  bool // the application configures its own ErrorHandler (observes, then delegates)
 	kept      []*kept
 	unstable  []string
 }
@@ -160,7 +163,11 @@ func ksAccess(c fiber.Ctx) [][2]string {
 		{"BodyRaw", unsafe.String(unsafe.SliceData(c.BodyRaw()), len(c.BodyRaw()))},
 		{"Get(User-Agent)", c.Get("User-Agent")}, {"Get(Referer)", c.Get("Referer")}, {"Get(Content-Type)", c.Get("Content-Type")},
 	}
+	qb, hb := fiber.Query[[]byte](c, "q"), fiber.GetReqHeader[[]byte](c, "X-A")
+	out = append(out, [2]string{"Query[string](q)", fiber.Query[string](c, "q")}, [2]string{"Query[[]byte](q)", unsafe.String(unsafe.SliceData(qb), len(qb))},
+		[2]string{"GetReqHeader[string](X-A)", fiber.GetReqHeader[string](c, "X-A")}, [2]string{"GetReqHeader[[]byte](X-A)", unsafe.String(unsafe.SliceData(hb), len(hb))})
 	if r := c.Route(); r != nil {
+		out = append(out, [2]string{"Route.Path", r.Path})
 		for _, p := range r.Params {
 			out = append(out, [2]string{"Params(" + p + ")", c.Params(p)})
 		}
@@ -247,9 +254,26 @@ func accName(a string) string {
 }
 
 func (w *ksWorld) build(cfg fiber.Config) *fiber.App {
-	app := fiber.New(cfg)
 	opID := func(c fiber.Ctx) int { return atoi(c.Get("X-Op")) }
-	app.Use(func(c fiber.Ctx) error {
+	if w.customEH {
+		cfg.ErrorHandler = func(c fiber.Ctx, err error) error {
+			id := opID(c)
+			if o := w.obsOf(id); o != nil && c.Get("X-Op") != "" {
+				o.eh = w.observe(c, id, true)
+				if w.immutMode && w.immutable && w.yield {
+					w.keep(c, id)
+				}
+			}
+			return fiber.DefaultErrorHandler(c, err)
+		}
+	}
+	app := fiber.New(cfg)
+	use := func(h fiber.Handler) {
+		if w.globalMW {
+			app.Use(h)
+		}
+	}
+	use(func(c fiber.Ctx) error {
 		id := opID(c)
 		o := w.obsOf(id)
 		if o != nil {
@@ -273,7 +297,9 @@ func (w *ksWorld) build(cfg fiber.Config) *fiber.App {
 			after[kv[0]] = kv[1]
 		}
 		for _, kv := range before {
-			if v, ok := after[kv[0]]; ok && v != kv[1] && !strings.HasPrefix(kv[0], "Params") {
+			// Params and Route describe the route that is currently executing: they legitimately differ
+			// between the middleware and the handler further down the chain
+			if v, ok := after[kv[0]]; ok && v != kv[1] && !strings.HasPrefix(kv[0], "Params") && !strings.HasPrefix(kv[0], "Route.") {
 				w.s.Fail("C06.stable."+accName(kv[0]), "request %d: %s was %q when the first middleware read it and reads differently after the handler chain ran (still inside the handler)", id, kv[0], kv[1])
 			}
 		}
@@ -389,6 +415,9 @@ func (w *ksWorld) build(cfg fiber.Config) *fiber.App {
 	})
 	app.Get("/file", func(c fiber.Ctx) error {
 		final(c, nil)
+		if c.Query("ma") != "" || c.Query("dl") != "" {
+			return c.SendFile(ksFilePath, fiber.SendFile{MaxAge: fiber.Query[int](c, "ma"), Download: c.Query("dl") != ""})
+		}
 		return c.SendFile(ksFilePath)
 	})
 	app.Get("/hdr", func(c fiber.Ctx) error {
@@ -452,6 +481,12 @@ func ksGenerate(s *simrt.Sim, nconn int, flashValid string) []*ksReq {
 		case 14:
 			r.kind = "file"
 			path = "/file?pad=" + strings.Repeat("a", s.Range(0, 120))
+			if s.Chance(500) {
+				path += "&ma=" + simrt.PickS(s, "60", "86400", "0")
+			}
+			if s.Chance(200) {
+				path += "&dl=1"
+			}
 		case 15:
 			r.kind = "unknown-method"
 			method, path = "BREW", "/coffee"
@@ -548,6 +583,10 @@ func ksGenerate(s *simrt.Sim, nconn int, flashValid string) []*ksReq {
 		case 11:
 			r.kind = "notfound"
 			path = "/nothing/" + seg()
+			if s.Chance(400) {
+				r.kind = "notfound-valid-flash"
+				cookie = "fiber_flash=" + flashValid
+			}
 			if s.Chance(500) {
 				r.kind = "wrong-method"
 				method, path = "DELETE", "/u/"+seg()
@@ -629,10 +668,10 @@ func ksRun(s *simrt.Sim, info *harness.RunInfo, immutMode bool) {
 		}
 	}
 	cfgLine := fmt.Sprintf("immutMode=%v immutable=%v caseSensitive=%v strict=%v unescape=%v proxyHeader=%q ipValidation=%v conns=%d preempt=%d net=%+v stream=%v reducemem=%v", immutMode, cfg.Immutable, cfg.CaseSensitive, cfg.StrictRouting, cfg.UnescapePath, cfg.ProxyHeader, cfg.EnableIPValidation, nconn, preempt, netw, cfg.StreamRequestBody, cfg.ReduceMemoryUsage)
-	s.Logf("cfg %s", cfgLine)
-
 	ksFiles()
-	w := &ksWorld{s: s, immutMode: immutMode, immutable: cfg.Immutable}
+	w := &ksWorld{s: s, immutMode: immutMode, immutable: cfg.Immutable, globalMW: !s.Chance(300), customEH: s.Chance(400)}
+	cfgLine += fmt.Sprintf(" globalMW=%v customEH=%v", w.globalMW, w.customEH)
+	s.Logf("cfg %s", cfgLine)
 	// a valid flash cookie value, as a server issues it
 	flashValid := ""
 	{
@@ -730,7 +769,7 @@ func ksRun(s *simrt.Sim, info *harness.RunInfo, immutMode bool) {
 			for _, pair := range []struct {
 				where    string
 				got, ref map[string]string
-			}{{"middleware entry", r.got.mw, r.ref.mw}, {"handler", r.got.h, r.ref.h}} {
+			}{{"middleware entry", r.got.mw, r.ref.mw}, {"handler", r.got.h, r.ref.h}, {"error handler", r.got.eh, r.ref.eh}} {
 				keys := map[string]bool{}
 				for k := range pair.got {
 					keys[k] = true
